@@ -994,3 +994,16 @@ V("c02-twin-broadcast-to-shuffle-only-when-layout-kept", "C02", "-", "dask_array
   ("dask_array/_broadcast_to.py", "        # Push shuffle through to input\n        shuffled_input = Shuffle(", "        if shuffle_expr.shape != self.shape or shuffle_expr.chunks != self.chunks:\n            return None\n        # Push shuffle through to input\n        shuffled_input = Shuffle("),
   ("dask_array/_broadcast_to.py", "        return BroadcastTo(shuffled_input, tuple(shape), tuple(chunks), self._meta)\n", "        return BroadcastTo(shuffled_input, self._shape, self._chunks, self._meta)\n"),
 ])
+
+# -- R02.12: index-space typing (sa/indexspace.py) -------------------------------------------------------------------
+V("c02-coarse-operand-chunks-by-output-position", "C02", "R02.12", "dask_array/_blockwise.py",
+  "in_cumsum = list(cached_cumsum(arg.chunks[dim_idx], initial_zero=True))", "in_cumsum = list(cached_cumsum(arg.chunks[out_pos], initial_zero=True))", expect="_accept_slice_coarse")
+V("c02-blockwise-slice-index-by-operand-position", "C02", "R02.12", "dask_array/_blockwise.py",
+  "                        idx = slice_index[out_pos]\n", "                        idx = slice_index[axis]\n", expect="Blockwise._accept_slice")
+V("c02-elemwise-slice-index-by-operand-position", "C02", "R02.12", "dask_array/_blockwise.py",
+  "                        out_slice = full_index[out_pos]\n", "                        out_slice = full_index[i]\n", expect="Elemwise._accept_slice")
+V("c02-coarse-block-range-by-operand-position", "C02", "R02.12", "dask_array/_blockwise.py",
+  "                        br = block_ranges[out_pos]\n", "                        br = block_ranges[dim_idx]\n", expect="_accept_slice_coarse")
+V("c02-twin-coarse-operand-axis-renamed", "C02", "-", "dask_array/_blockwise.py", None, None, twin=True, edits=[
+  ("dask_array/_blockwise.py", "                for dim_idx, in_ind in enumerate(arg_ind):\n                    try:\n                        out_pos = out_ind.index(in_ind)\n                        br = block_ranges[out_pos]", "                for ax, in_ind in enumerate(arg_ind):\n                    dim_idx = ax\n                    try:\n                        out_pos = out_ind.index(in_ind)\n                        br = block_ranges[out_pos]"),
+])
